@@ -7,6 +7,26 @@ HOOK_COMMITS = []   # filled as hooks land in /repo
 
 # id -> (category, technique, text, note, design_ref)
 CHECKS = {
+ "C07": ("exploration",
+         "bounded exhaustive enumeration (E1) of DFT-domain operation shapes x parameters x value classes against a schoolbook negacyclic product over exact integers",
+         "Transforms (every (step, offset) incl. past the end), transform-domain add/sub/copy/zero/scaled add, inverse transforms (3 forms), svp (3 forms), vmp (2 forms, every limb_offset, all rows/cols_in/cols_out/size combinations 1..3), convolutions (apply, pairwise i==j and i!=j, self, by-constant; every cnv_offset, top-limb masks) are executed on four backends at N=8,16 for several radices up to the domain limit, each from two garbage fills, and the exact integer value of the result (read through the inverse transform) is compared bit for bit with the schoolbook product; all 2^16 single-limb svp products at N=8; large-N classes up to 2^16. Four defects found this way were repaired.",
+         "Trusted: schoolbook model (pvc-model), the library's inverse transform as read-out (itself an enumerated family). Magnitude domain is a conservative sub-domain (FFT64: n*terms*2^(2b) <= 2^50).",
+         "3/C07"),
+ "C10": ("exploration",
+         "bounded exhaustive enumeration (E1): same case issued on two backends, byte comparison",
+         "Every coefficient-domain operation on lengths 1..17 (all SIMD tails), all rotations and Galois elements, normalisation/shift kernels for 13 (quick) / all 62 (thorough) radices x shifts x 64-bit boundary values, every DFT-domain case of C07 inside both magnitude domains, and the four samplers (values and stream position) are run on reference vs AVX and FFT64 vs NTT120 and compared byte for byte in the coefficient domain. The pinned suite never builds the AVX crates, so this is the only observer of poulpy-cpu-avx. Scheme-level programs are compared in the core part of the check.",
+         "Trusted: nothing beyond the harness plumbing; AVX families are skipped (and reported) on hosts without AVX2/FMA.",
+         "3/C10"),
+ "C11": ("model_checking",
+         "metamorphic exhaustive enumeration (E1) + explicit enumeration of all operation histories up to depth 2/3 (E2) on the real library",
+         "Each case is executed twice from independent garbage (NaN/huge patterns) in the result buffer, other columns, spare capacity and prepared operands; the selected output column must be byte-identical, every other byte untouched and read-only operands unmodified: 29 coefficient-domain operations x all column patterns of 1..3 columns, every DFT-domain case of C07 at N=8 incl. selections past the end, and all histories of depth 2 (quick) / 3 (thorough) over 10 operations x set_size on one reused buffer (states = histories, transitions = real calls). Oracle-free, so it cannot share a misconception with the library.",
+         "Trusted: the layout arithmetic used to mask the selected column (10 lines). In-place forms treat the prior content of the selected column as an input.",
+         "3/C11"),
+ "C12": ("exploration",
+         "bounded exhaustive enumeration (E1) with exact-size scratch windows between canaries",
+         "Every scratch-taking HAL operation (normalise, 8 shifts, 3 *_assign ring ops, inverse transform, vmp prepare/apply, convolution prepare/apply/pairwise/by-const) is run over the C07/C11 shape grids with a scratch of exactly the number of bytes its companion query returns, placed between canary regions and pre-filled with zeros, 0x11 and the NaN/huge pattern: no panic, canaries intact, result independent of the fill. One defect repaired (rsh_assign), one recorded (pairwise query argument order). Core/CKKS/bin-fhe queries are covered by the core part of the check.",
+         "Trusted: Scratch::from_bytes as the way to hand over an exact window.",
+         "3/C12"),
  "C08": ("exploration",
          "bounded exhaustive enumeration (E1): every digit tuple of small radices x every signed offset, boundary classes for radices up to 62, against the exact rational value mod 1",
          "Normalisation, the eight shift forms, the four big-accumulator normalisations (i64 and i128) are executed for every digit tuple with digits in [-2^(b+1), 2^(b+1)] (b<=3 quick, b<=4 thorough; sizes 1..3; all radix pairs; every offset in +-(a_bits+2b)), at odd packing widths for SIMD tails, and on named boundary classes for radices up to 62; integer encoding for every (b,k). Each output is compared with input*2^offset on the torus as an exact big integer: within one unit, exact when long enough, digits in range. Two defect classes found on the unchanged tree are listed as known findings; one was repaired.",
